@@ -106,6 +106,11 @@ func runCLI(cs c16Case) cliResult {
 		args = append(args, "--target-dir", j.Target)
 	case "missing":
 		args = append(args, "--target-dir", filepath.Join(j.Target, "nope", "deeper"))
+	case "tilde":
+		// a relative directory whose name begins with a tilde (the shell does not expand "~out", nor "--target-dir=~/x")
+		args = append(args, "--target-dir", "~out")
+	case "tilde-eq":
+		args = append(args, "--target-dir=~v/w")
 	}
 	switch cs.Extra {
 	case "stray":
@@ -135,7 +140,8 @@ func runCLI(cs c16Case) cliResult {
 		cmd.Stdin = stdin
 	}
 	cmd.Stderr = &se
-	cmd.Env = append(os.Environ(), "NO_COLOR=1", "TERM=dumb")
+	os.MkdirAll(filepath.Join(j.Root, "home"), 0o755)
+	cmd.Env = append(os.Environ(), "NO_COLOR=1", "TERM=dumb", "HOME="+filepath.Join(j.Root, "home"))
 	switch cs.Stdout {
 	case "pipe":
 		cmd.Stdout = &so
@@ -144,6 +150,14 @@ func runCLI(cs c16Case) cliResult {
 		if err == nil {
 			defer f.Close()
 			cmd.Stdout = f
+		}
+	case "brokenpipe":
+		// a pipe whose reader has gone before the first byte (`gtree ... | true`)
+		pr, pw, err := os.Pipe()
+		if err == nil {
+			pr.Close()
+			defer pw.Close()
+			cmd.Stdout = pw
 		}
 	}
 	// a CLI invocation takes milliseconds; one that is still running after 120 s is killed and reported
@@ -240,6 +254,10 @@ func runLib(cs c16Case) (out string, err error, snap fsx.Snap, usage bool) {
 		target = ""
 	case "missing":
 		target = filepath.Join(j.Target, "nope", "deeper")
+	case "tilde":
+		target = "~out"
+	case "tilde-eq":
+		target = "~v/w"
 	}
 	var buf bytes.Buffer
 	func() {
@@ -319,7 +337,7 @@ func c16Judge(c *rep.Ctx, cs c16Case) {
 	success := !usage && lerr == nil
 	// /dev/full rejects every byte. A stdout that is CLOSED at exec time is a different matter: the Go runtime
 	// re-opens fds 0-2 on /dev/null at start-up, so the program's writes succeed and exit 0 is truthful there.
-	if cs.Stdout == "full" && success && lout != "" {
+	if (cs.Stdout == "full" || cs.Stdout == "brokenpipe") && success && lout != "" {
 		success = false // the output could not be delivered
 	}
 	if success && cli.code != 0 {
@@ -330,14 +348,15 @@ func c16Judge(c *rep.Ctx, cs c16Case) {
 		switch {
 		case usage:
 			why = "usage-error"
-		case cs.Stdout == "full" && lerr == nil:
+		case (cs.Stdout == "full" || cs.Stdout == "brokenpipe") && lerr == nil:
 			why = "stdout-" + cs.Stdout
 		case cs.Input == "missing":
 			why = "file-open-error"
 		}
 		c.Violation("C16|exit-0-on-failure|"+why+"|"+cs.Cmd, fmt.Sprintf("%s: the operation failed (library err=%v) but the exit status is 0; stderr=%q", desc, lerr, firstN(cli.stderr, 200)), size, cs)
 	}
-	if cli.code != 0 && strings.TrimSpace(cli.stderr) == "" {
+	// (a process ended by SIGPIPE - the default for a write to a broken pipe on fd 1 - says nothing, by nature)
+	if cli.code != 0 && strings.TrimSpace(cli.stderr) == "" && !(cs.Stdout == "brokenpipe" && cli.code == -1) {
 		c.Violation("C16|no-diagnostic-on-stderr|"+cs.Cmd, fmt.Sprintf("%s: exit %d with empty stderr", desc, cli.code), size, cs)
 	}
 	if cs.Stdout == "pipe" && !usage && cs.Input != "missing" {
@@ -497,6 +516,23 @@ func init() {
 				add(c16Case{Cmd: "verify", Doc: d.doc, DocName: d.name, Args: args, Input: "stdin", Extra: "stray", Stdout: "pipe", Target: "dir"})
 				add(c16Case{Cmd: "verify", Doc: d.doc, DocName: d.name, Args: args, Input: "stdin", Extra: "empty-first", Stdout: "pipe", Target: "dir", Pre: map[string]byte{"a/b": 'd', "a/c.go": 'f', "a/extra": 'd'}})
 				add(c16Case{Cmd: "verify", Doc: d.doc, DocName: d.name, Args: args, Input: "fifo", Stdout: "pipe", Target: "dir", Pre: map[string]byte{"a/b": 'd', "a/c.go": 'f'}})
+			}
+		}
+		// standard output is a pipe nobody reads any more
+		for _, d := range docs[:3] {
+			for _, args := range [][]string{nil, {"--massive"}, {"--format", "json"}, {"--format", "yaml"}, {"--format", "toml"}} {
+				add(c16Case{Cmd: "output", Doc: d.doc, DocName: d.name, Args: args, Input: "stdin", Stdout: "brokenpipe"})
+			}
+			add(c16Case{Cmd: "mkdir", Doc: d.doc, DocName: d.name, Args: []string{"--dry-run"}, Input: "stdin", Stdout: "brokenpipe", Target: "dir"})
+			add(c16Case{Cmd: "mkdir", Doc: d.doc, DocName: d.name, Input: "stdin", Stdout: "brokenpipe", Target: "dir"})
+		}
+		add(c16Case{Cmd: "output", Doc: "", DocName: "empty", Input: "stdin", Stdout: "brokenpipe"})
+		// target directories whose names begin with a tilde
+		for _, d := range docs[:2] {
+			for _, tg := range []string{"tilde", "tilde-eq"} {
+				add(c16Case{Cmd: "mkdir", Doc: d.doc, DocName: d.name, Args: []string{"-e", ".go"}, Input: "stdin", Stdout: "pipe", Target: tg})
+				add(c16Case{Cmd: "mkdir", Doc: d.doc, DocName: d.name, Args: []string{"--dry-run"}, Input: "stdin", Stdout: "pipe", Target: tg})
+				add(c16Case{Cmd: "verify", Doc: d.doc, DocName: d.name, Args: []string{"--strict"}, Input: "stdin", Stdout: "pipe", Target: tg, Pre: map[string]byte{"~out/a/b": 'd', "~v/w/a": 'd'}})
 			}
 		}
 		// boolean flags spelled out with a value
